@@ -45,7 +45,7 @@ theorem C19_ending_removes_exactly (cfg : LifeCfg) (s : LifeSt) (a : LifeAct) (i
 
 /-- a failed TLS handshake or rejected certificate leaves no connection behind -/
 theorem C19_tls_fault_leaves_nothing (cfg : LifeCfg) (s : LifeSt) (kind id : String)
-    (hk : kind ≠ "stall") (hbad : tlsServed cfg (certOf kind) = false) :
+    (hk : kind ≠ "stall") (hbad : tlsServed cfg (certIn s.ca kind) = false) :
     (lifeStepA cfg s (.tlsbad kind id)).2.conns = s.conns := by
   have hs : (kind == "stall") = false := by simpa using hk
   simp only [lifeStepA, hs, hbad]
